@@ -191,6 +191,9 @@ func genVal(r *lib.Rng, f *FDesc, k Kind, t reflect.Type, over bool) Val {
 				if r.Chance(1, 3) {
 					return vNil
 				}
+				if k.Of.Of.K == "uint" {
+					return vSome(vInt(genUnixSec(r, 32) & 0x7fffffff))
+				}
 				return vSome(vInt(genUnixSec(r, k.Of.Of.W)))
 			}
 			if k.Of.K == "uint" {
@@ -252,6 +255,8 @@ func genComposite(r *lib.Rng, t reflect.Type, ser string) interface{} {
 			return map[string]string(nil)
 		}
 		return map[string]string{"a": lib.Pick(r, hostile), lib.Pick(r, hostile): "v"}
+	case reflect.TypeOf(Enc("")):
+		return Enc(lib.Pick(r, hostile))
 	case reflect.TypeOf(Payload{}):
 		if r.Chance(1, 5) {
 			return Payload{}
@@ -269,17 +274,17 @@ func genComposite(r *lib.Rng, t reflect.Type, ser string) interface{} {
 
 // GenOpt steers genInput.
 type GenOpt struct {
-	Type   string
-	NoRet  bool
-	Op     string
-	N      int
-	Edge   bool
-	Spec   []GField
-	Over   bool // error stream: one uint64 with the high bit set
+	Type       string
+	NoRet      bool
+	Op         string
+	N          int
+	Edge       bool
+	Spec       []GField
+	Over       bool // error stream: one uint64 with the high bit set
 	AllowKnown bool
 }
 
-var mainTypes = []string{"Ints", "Scalars", "Nulls", "Sers", "Embs", "Defs", "Comp", "Keyed", "StrKey", "UnixU", "Twice", "Loc", "Loc", "Uid", "PTimes", "PTimes"}
+var mainTypes = []string{"Ints", "Scalars", "Nulls", "Sers", "Embs", "Defs", "Comp", "Keyed", "StrKey", "UnixU", "Twice", "Loc", "Loc", "Uid", "PTimes", "PTimes", "Modeled", "Modeled", "Defs2", "Defs2"}
 var mapTypes = []string{"Ints", "Scalars", "Keyed", "Comp", "Embs", "Twice", "Loc", "Uid"}
 
 func genInput(r *lib.Rng, id int, g GenOpt) Input {
@@ -356,6 +361,8 @@ func genInput(r *lib.Rng, id int, g GenOpt) Input {
 				rec[j] = vInt(int64(1 + r.Intn(2)))
 			case f.HPK && f.Kind.K == "str":
 				rec[j] = vStr(fmt.Sprintf("k%d-%d%s", id, i, lib.Pick(r, []string{"", "'", "é"})))
+			case f.Col == "deleted_at" || f.Col == "DeletedAt":
+				rec[j] = vNil // not soft-deleted
 			case f.EmbPtr && embNil:
 				rec[j] = vAbsent
 			case f.DbDef != nil:
@@ -402,6 +409,8 @@ func zeroVal(k Kind) Val {
 		return vFloat(0)
 	case "time":
 		return Val{T: "opq", Z: zeroNs}
+	case "custom":
+		return zeroVal(*k.Of)
 	}
 	return vNil
 }
